@@ -1,6 +1,7 @@
 package ircserver
 
 import (
+	"fmt"
 	"hash/fnv"
 
 	"github.com/robustirc/robustirc/internal/robust"
@@ -42,7 +43,14 @@ func (i *IRCServer) cmdServerNick(s *Session, reply *Replyctx, msg *irc.Message)
 
 	// s.LastActivity is the timestamp of the robust.Message which
 	// contains the server_NICK command we’re processing.
-	i.createSessionLocked(id, "", s.LastActivity)
+	if err := i.createSessionLocked(id, "", s.LastActivity); err != nil {
+		i.sendServices(reply, &irc.Message{
+			Prefix:  i.ServerPrefix,
+			Command: irc.NOTICE,
+			Params:  []string{s.ircPrefix.Name, fmt.Sprintf("Cannot introduce %s: %v", msg.Params[0], err)},
+		})
+		return
+	}
 	ss := i.sessions[id]
 	ss.Nick = msg.Params[0]
 	i.nicks[NickToLower(ss.Nick)] = ss
